@@ -254,3 +254,17 @@ Proof.
     rewrite (bind_ok _ _ _ tt _ (drop_ne post o1 e1 a1 (txt, o, ap) fr k)).
     rewrite <- Ed, rev_app_distr. cbn [rev app]. rewrite rev_involutive. reflexivity.
 Qed.
+
+Theorem p_accession_roundtrip depth a v post o e ap fr k :
+  zlen n_ACCESSION <= depth -> no_eol v -> is_prefix (repeat_byte 32 depth) post = false ->
+  exists s', p_accession depth a
+               (mkst ((n_ACCESSION ++ repeat_byte 32 (depth - zlen n_ACCESSION) ++ v ++ [10]) ++ post) o e ap (fr :: k)) =
+             (Ok (upd_fields a (set_accession (a_fields a) v), None), s') /\ rest s' = post /\ stk s' = fr :: k.
+Proof.
+  intros Hd Hv Hp.
+  destruct (sub_generic_field n_ACCESSION depth (fun a0 p => upd_fields a0 (set_accession (a_fields a0) p)) a v [] post o e ap fr k
+              Hd Hv ltac:(constructor) Hp) as (s' & E & R & S).
+  exists s'. split; [|split; assumption].
+  unfold joined in E. cbn [map concat] in E. rewrite app_nil_r in E. rewrite (add_prefix_noeol v _ Hv) in E.
+  unfold p_accession. rewrite <- E. f_equal. f_equal. rewrite <- !app_assoc. reflexivity.
+Qed.
